@@ -12,6 +12,15 @@ checks = {
  "C05": dict(cat="model_checking", ref="DESIGN.md 4 C05",
    text="TLC checks on the specification that the comparator of sort.go yields a permutation whose adjacent pairs respect the key list lexicographically with directions, NULL keys last, that the key-tuple sequence is unique although tie order is not, and that the OFFSET/LIMIT slice arithmetic as coded equals 'positions m..m+n-1 that exist' for every (limit, offset) pair; every enumerated table x key list x window is replayed against the real library and seeded random executions are trace-validated (OrderOK membership, exact window).",
    tech="TLA+ specification (Genql Less/OrderOK/WindowModel, Engine) model-checked with TLC; exported behaviours replayed; recorded executions trace-validated with TLC (EngineTrace)"),
+ "C02": dict(cat="model_checking", ref="DESIGN.md 4 C02",
+   text="TLC checks on the specification that projection emits one object per kept row whose key set is exactly the select list's names (all source keys for the star item) and whose values are the expression semantics of that row alone, plus sanity laws of the operator semantics (a-b = a+(-b), ~~x = trunc x, NULL operand -> NULL, missing key -> NULL, CASE first true arm); every expression of the bounded grammar (all 11 binary and 3 unary operators over all atom pairs, depth-2 trees, CASE) and every select list of 1-3 items is exported and replayed against the real library; seeded deeper trees are trace-validated.",
+   tech="TLA+ specification (Genql Ev/Project, Engine) model-checked with TLC; exported behaviours replayed; recorded executions trace-validated with TLC (EngineTrace)"),
+ "C03": dict(cat="model_checking", ref="DESIGN.md 4 C03",
+   text="TLC checks on the specification the partition laws (every kept row in exactly one group, members in source order, keys pairwise distinct, first-appearance order, HAVING keeps a subsequence, group counts add up to the filtered row count, every aggregate computed from its own argument over its own group, whole-table aggregates over the filtered rows give exactly one row) for every table x grouping set x select list x WHERE/HAVING of the bounded domain; every case is replayed several times in fresh queries against the real library with the exact output sequence compared; seeded larger cases are trace-validated.",
+   tech="TLA+ specification (Genql StGroup/Aggregate/StSelect, Engine) model-checked with TLC; exported behaviours replayed (repeated runs); recorded executions trace-validated with TLC (EngineTrace)"),
+ "C06": dict(cat="model_checking", ref="DESIGN.md 4 C06",
+   text="TLC checks on the specification that DISTINCT keeps exactly the first occurrence of each distinct row (abstract row equality, with rows whose textual fingerprints coincide), that UNION ALL is concatenation, UNION its de-duplication, chains of one kind are associative and LIMIT/OFFSET apply to the combined sequence; every enumerated table / branch combination is replayed against the real library with the exact sequence compared; seeded 1-4 branch chains are trace-validated.",
+   tech="TLA+ specification (Genql Dedup/RunQ union, Engine) model-checked with TLC; exported behaviours replayed; recorded executions trace-validated with TLC (EngineTrace)"),
 }
 not_applicable = []
 m = {
